@@ -68,8 +68,13 @@ fn judge(path: &[(u8, f64)], out: &mut JobOut) -> bool {
         (Ok(item), Ok(w)) => {
             out.stats.nontrivial += 1;
             let g = [item.open(), item.high(), item.low(), item.close(), item.volume()];
+            // the same getters called through a reference to a reference (what closure
+            // parameters of iter().filter(|it| ..) receive): method resolution must still
+            // reach the item's own impls
+            let rr: &&DataItem = &item;
+            let g2 = [rr.open(), rr.high(), rr.low(), rr.close(), rr.volume()];
             let c = item.clone();
-            (0..5).all(|i| g[i].to_bits() == w[i].to_bits()) && c == *item
+            (0..5).all(|i| g[i].to_bits() == w[i].to_bits() && g2[i].to_bits() == w[i].to_bits()) && c == *item
         }
         _ => false,
     };
@@ -139,6 +144,24 @@ fn permutations5() -> Vec<[u8; 5]> {
 pub fn run(ctx: &Ctx) -> CheckResult {
     let mut res = CheckResult::new(PROP, "model_checking");
     let th = ctx.tier_thorough;
+    // the two error outcomes must be distinguishable (the "iff" of the statement is about two different errors)
+    {
+        let inc = DataItem::builder().high(2.0).low(1.0).build();
+        let inv = DataItem::builder().open(1.0).high(1.0).low(2.0).close(1.0).volume(1.0).build();
+        let distinct = match (&inc, &inv) {
+            (Err(a), Err(b)) => a != b && format!("{:?}", a) != format!("{:?}", b) && a.to_string() != b.to_string() && *a == TaError::DataItemIncomplete && *b == TaError::DataItemInvalid && *a != TaError::InvalidParameter && *b != TaError::InvalidParameter,
+            _ => false,
+        };
+        res.out.stats.evaluations += 1;
+        if !distinct {
+            res.out.fail(
+                Violation::new(PROP, &Cfg::p0(Kind::Obv), &[], "errors-indistinguishable")
+                    .obs(format!("incomplete builder -> {:?} / \"{}\"; inconsistent bar -> {:?} / \"{}\"", inc.as_ref().err(), inc.as_ref().err().map(|e| e.to_string()).unwrap_or_default(), inv.as_ref().err(), inv.as_ref().err().map(|e| e.to_string()).unwrap_or_default()))
+                    .exp("Err(DataItemIncomplete) and Err(DataItemInvalid) are two different errors (!=, different Debug and Display)".into())
+                    .det("DataItem::builder().high(2).low(1).build() vs DataItem::builder().open(1).high(1).low(2).close(1).volume(1).build()".into()),
+            );
+        }
+    }
     // (a)+(b): all 11^5 abstract states and every transition out of each, split by the first field's value
     let firsts: Vec<u8> = (0..11).collect();
     let outs = par_run(ctx, &firsts, |_, &f0| {
